@@ -14,6 +14,7 @@ MAXMSG = 32768
 CFG_MAIN = {"max_incomplete": 64, "auth_timeout": 120000, "max_message_size": MAXMSG}
 CFG_BOUND = {"max_incomplete": 4, "auth_timeout": 120000, "max_message_size": MAXMSG}
 CFG_TIMED = {"max_incomplete": 4, "auth_timeout": 1000, "max_message_size": MAXMSG}
+CFG_QUOTA = {"max_incomplete": 64, "auth_timeout": 120000, "max_message_size": MAXMSG, "extra_limits": {"max_outgoing_bytes": 200000}}
 
 AUTH_LINE = b"AUTH EXTERNAL " + str(UID).encode().hex().encode() + b"\r\n"
 AUTH_OK = b"\0" + AUTH_LINE + b"BEGIN\r\n"
@@ -430,6 +431,44 @@ def gen_expiry(rnd):
     return s.done(ev)
 
 
+def gen_blast(rnd):
+    """a registered (or not even registered) client writes as fast as it can for a while, never reading; the pair is served meanwhile"""
+    s = Script("blast", CFG_MAIN, rnd)
+    c = s.conn()
+    reg = rnd.random() < 0.8
+    s.w(c, AUTH_OK + (hello().encode() if reg else b""))
+    kind = rnd.choice(("big-signal", "getid", "unicast-nobody", "invalid-tail"))
+    if kind == "big-signal":
+        payload = Msg(SIGNAL, 0, 9, {F_PATH: "/b", F_INTERFACE: "b.l", F_MEMBER: "Ast"}, "s", ("x" * rnd.choice((4000, 16000, 30000)),)).encode()
+    elif kind == "getid":
+        payload = b"".join(getid(1000 + i).encode() for i in range(64))
+    elif kind == "unicast-nobody":
+        payload = b"".join(Msg(METHOD_CALL, 0, 2000 + i, {F_PATH: "/b", F_MEMBER: "M", F_DESTINATION: "no.such.name"}, "s", ("y" * 2000,)).encode() for i in range(16))
+    else:
+        payload = Msg(SIGNAL, 0, 9, {F_PATH: "/b", F_INTERFACE: "b.l", F_MEMBER: "Ast"}, "s", ("z" * 8000,)).encode() * 4 + b"\xff" * 64
+    d = s.done(s.tracks[c])
+    d["blast"] = {"conn": c, "seconds": rnd.choice((0.6, 1.0)), "payload": payload.hex(), "what": kind}
+    return d
+
+
+def introspect(serial):
+    return Msg(METHOD_CALL, 0, serial, {F_PATH: "/org/freedesktop/DBus", F_MEMBER: "Introspect", F_INTERFACE: "org.freedesktop.DBus.Introspectable", F_DESTINATION: DRIVER})
+
+
+def gen_quota(rnd, n=None, cfg=None):
+    """a registered client that never reads asks the driver for more reply bytes than its outgoing quota (max_outgoing_bytes) holds"""
+    s = Script("quota", cfg or CFG_QUOTA, rnd)
+    c = s.conn()
+    s.w(c, AUTH_OK + hello().encode())
+    n = n or rnd.choice((40, 60, 100))
+    out = b"".join(introspect(s.next_serial()).encode() for _ in range(n))
+    s.w(c, out)
+    s.w(c, getid(s.next_serial()).encode())
+    d = s.done(s.tracks[c])
+    d["noread"] = [c]
+    return d
+
+
 def hand_written():
     """boundary scenarios (also kept in corpus/C10)"""
     rnd = random.Random(0)
@@ -474,7 +513,7 @@ def hand_written():
 FAMILIES = [(gen_mutation, 30), (gen_limits, 8), (gen_truncate, 10), (gen_handshake, 14), (gen_prehello, 10), (gen_oversized, 4), (gen_many_unauth, 8)]
 
 
-def generate(rnd, n_plain, n_flood, n_timed):
+def generate(rnd, n_plain, n_flood, n_timed, n_blast=0):
     scripts = hand_written()
     tot = sum(w for _, w in FAMILIES)
     for _ in range(n_plain):
@@ -488,4 +527,8 @@ def generate(rnd, n_plain, n_flood, n_timed):
         scripts.append(gen_flood(rnd))
     for _ in range(n_timed):
         scripts.append(gen_expiry(rnd))
+    for _ in range(n_blast):
+        scripts.append(gen_blast(rnd))
+    for _ in range(2):
+        scripts.append(gen_quota(rnd))
     return scripts
